@@ -20,8 +20,8 @@ MIRI_PLAN = {
         "thorough": [("miri_tag_slices", 2), ("miri_own_slices", 2), ("miri_tag_arrays", 2), ("miri_own_arrays", 2), ("array_fns", 8)],
     },
     "C18": {
-        "quick": [("iter_histories", 6), ("conversions", 5), ("slice_views", 3)],
-        "thorough": [("iter_histories", 16), ("conversions", 10), ("slice_views", 6)],
+        "quick": [("iter_histories", 10), ("iter_random", 2), ("conversions", 2), ("slice_views", 2)],
+        "thorough": [("iter_histories", 16), ("iter_random", 6), ("conversions", 6), ("slice_views", 4)],
     },
 }
 
@@ -211,9 +211,11 @@ def run_memcheck(prop, path, tier, seed, rundir, log):
         if rc is None:
             probs.append(f"memcheck shard {sh}: watchdog")
             continue
+        shard_has_violations = False
         if os.path.exists(out):
             with open(out) as f:
                 doc = json.load(f)
+            shard_has_violations = any(s.get("violations_total", 0) > 0 for s in doc["subs"])
             for s in doc["subs"]:
                 evidence["evaluations"] += s["evaluations"]
                 evidence["distinct_nontrivial"] += s["distinct_nontrivial"]
@@ -236,9 +238,14 @@ def run_memcheck(prop, path, tier, seed, rundir, log):
                     continue
                 fns = re.findall(r"(?:at|by) 0x[0-9A-F]+: ([^\n]+)", b)
                 vek_frames = [f for f in fns if "vek::" in f]
+                kind = head.group(1)
+                # (after a violation the monitor deliberately forgets the objects involved, so leaks in a
+                # shard that already reported violations are a consequence, not a separate finding)
+                if not vek_frames and "lost" in kind and not shard_has_violations and any("monitors::tag::Own" in f or "Own as" in f for f in fns):
+                    # a leaked ownership token: allocated by the harness, lost by the code under test
+                    vek_frames = ["(leaked Own element: allocated by the harness, never freed)"]
                 if not vek_frames:
                     continue
-                kind = head.group(1)
                 kind = re.sub(r"[\d,]+ bytes in [\d,]+ blocks are (\w+) lost", r"\1_leak", kind).lower().replace(" ", "_")
                 fn = re.sub(r" \([^()]*\)$", "", vek_frames[0])
                 api = short_vek_fn(fn)
